@@ -3,6 +3,7 @@ import BlobfinderModel.Model.Crop
 import BlobfinderModel.Model.Blocks
 import BlobfinderModel.Model.Eval
 import BlobfinderModel.Model.DType
+import BlobfinderModel.Model.Pipeline
 /-
 Model driver for the correlation pipeline (crop, blocks, evaluation ...).
 One operation per input line, one result line per operation.
@@ -112,6 +113,61 @@ def opLogArg (ws : List String) : String :=
     | _ => "bad-op"
   | _ => "bad-op"
 
+/-- `frame which fy fx c b n T <fy*fx frame> <mask> <2n peaks> <T table>`: the composed pipeline
+`Model.processFrameFast` / `processFrameFull` on an integer-valued frame; the logarithm is the lookup
+table `T[k] = log k` supplied by the harness (the arguments `x - min + 1` are integers `1 .. T-1`).
+Output per peak: `cy cx height ry rx elev2`, separated by ` ; `. -/
+def opFrame (ws : List String) : String :=
+  match ws with
+  | which :: rest =>
+    match rats? rest with
+    | some (fy :: fx :: c :: b :: n :: t :: vals) =>
+      if fy.den ≠ 1 ∨ fx.den ≠ 1 ∨ c.den ≠ 1 ∨ b.den ≠ 1 ∨ n.den ≠ 1 ∨ t.den ≠ 1 then "bad-op" else
+      let (fy, fx, c, b, n, t) := (fy.num, fx.num, c.num, b.num, n.num, t.num)
+      if fy ≤ 0 ∨ fx ≤ 0 ∨ c ≤ 0 ∨ b ≤ 0 ∨ n < 0 ∨ t < 0 then "bad-op" else
+      let msize : Int := if which = "fast" then (2 * c) * (2 * c) else fy * fx
+      let mw : Int := if which = "fast" then 2 * c else fx
+      if vals.length ≠ (fy * fx + msize + 2 * n + t).toNat then "bad-op" else
+      let fa := (vals.take (fy * fx).toNat).toArray
+      let ma := ((vals.drop (fy * fx).toNat).take msize.toNat).toArray
+      let pk := ((vals.drop (fy * fx + msize).toNat).take (2 * n).toNat).toArray
+      let tb := (vals.drop (fy * fx + msize + 2 * n).toNat).toArray
+      let L : Rat → Rat := fun q => if q.den = 1 ∧ 0 ≤ q.num then tb.getD q.num.toNat (-1000000) else (-1000000)
+      let peaks : Int → Int × Int := fun i => ((pk.getD (2 * i).toNat 0).num, (pk.getD (2 * i + 1).toNat 0).num)
+      let init : Int → EvalOut := fun _ => { cy := -99999, cx := -99999, height := 0, ry := 0, rx := 0, elev2 := none }
+      let out := if which = "fast" then processFrameFast L (img ma mw) (img fa fx) fy fx c peaks n b init
+        else processFrameFull L (img ma mw) (img fa fx) fy fx c peaks n b init
+      " ; ".intercalate ((range n).map fun i =>
+        let r := out i
+        s!"{r.cy} {r.cx} {showRat r.height} {showRat r.ry} {showRat r.rx} {optRat r.elev2}")
+    | _ => "bad-op"
+  | _ => "bad-op"
+
+/-- `framecorr which fy fx c T <fy*fx frame> <mask> <p0 p1> <T table>`: the `2c × 2c` correlation window of one
+peak in the composed model (`fastCorr`, resp. the crop of `fullCorr`), row major, exact -/
+def opFrameCorr (ws : List String) : String :=
+  match ws with
+  | which :: rest =>
+    match rats? rest with
+    | some (fy :: fx :: c :: t :: vals) =>
+      if fy.den ≠ 1 ∨ fx.den ≠ 1 ∨ c.den ≠ 1 ∨ t.den ≠ 1 then "bad-op" else
+      let (fy, fx, c, t) := (fy.num, fx.num, c.num, t.num)
+      if fy ≤ 0 ∨ fx ≤ 0 ∨ c ≤ 0 ∨ t < 0 then "bad-op" else
+      let msize : Int := if which = "fast" then (2 * c) * (2 * c) else fy * fx
+      let mw : Int := if which = "fast" then 2 * c else fx
+      if vals.length ≠ (fy * fx + msize + 2 + t).toNat then "bad-op" else
+      let fa := (vals.take (fy * fx).toNat).toArray
+      let ma := ((vals.drop (fy * fx).toNat).take msize.toNat).toArray
+      let pk := ((vals.drop (fy * fx + msize).toNat).take 2).toArray
+      let tb := (vals.drop (fy * fx + msize + 2).toNat).toArray
+      let L : Rat → Rat := fun q => if q.den = 1 ∧ 0 ≤ q.num then tb.getD q.num.toNat (-1000000) else (-1000000)
+      let p : Int × Int := ((pk.getD 0 0).num, (pk.getD 1 0).num)
+      let win : Int → Int → Rat := if which = "fast" then fastCorr L (img ma mw) (img fa fx) fy fx c p
+        else fun y x => cropPixel (fullCorr L (img ma mw) (img fa fx) fy fx) fy fx c p.1 p.2 y x
+      joinRats (flat win (2 * c) (2 * c))
+    | _ => "bad-op"
+  | _ => "bad-op"
+
 def opShift (ws : List String) : String :=
   match ints? ws with
   | some [v, anchor, c] => s!"{Gen.shift v anchor c} {Gen.unshift v anchor c}"
@@ -144,6 +200,8 @@ def step (line : String) : String :=
   | "conv" :: ws => opConv ws
   | "evaluate" :: ws => opEvaluate ws
   | "logarg" :: ws => opLogArg ws
+  | "frame" :: ws => opFrame ws
+  | "framecorr" :: ws => opFrameCorr ws
   | "shift" :: ws => opShift ws
   | "usgeom" :: ws => opUsGeom ws
   | "uscenter" :: ws => (match ints? ws with
